@@ -275,7 +275,7 @@ pub fn run(cfg: &RunCfg) -> Report {
 					prop: v.prop.into(),
 					rule: v.rule.into(),
 					detail: v.detail.clone(),
-					signature: format!("{}:{}", v.prop, v.rule),
+					signature: sig_of(v),
 					case: format!("owned ops variant {variant} n={n}"),
 					index: i,
 					log: vec![],
@@ -300,7 +300,19 @@ pub fn run(cfg: &RunCfg) -> Report {
 						let _ = tc.nonacq("debug(target)", || lk.debug());
 						let _ = tc.nonacq("accessors(target)", || lk.accessors());
 					});
-					n_ops += 2;
+					// the same while the calling thread's key is NOT alive (a formatter that
+					// finds a free key must still not use it to wait for the lock)
+					let k = tc.key.take();
+					drop(k);
+					tc.with_lk(target, |tc, lk, _| {
+						let _ = tc.nonacq("debug(target) with no live key", || lk.debug());
+						let _ = tc.nonacq("accessors(target) with no live key", || lk.accessors());
+					});
+					match ThreadKey::get() {
+						Some(k) => tc.key = Some(k),
+						None => tc.v("C17", "key_taken_by_nonacquiring_call", format!("after formatting {} the thread's key is gone", target_desc(target))),
+					}
+					n_ops += 4;
 					cases.push((format!("other:{}", asg_str(&asg)), asg.iter().any(|h| *h != Hold::Free)));
 				}
 				w.phantom_release_all();
@@ -390,7 +402,7 @@ pub fn run(cfg: &RunCfg) -> Report {
 					prop: v.prop.into(),
 					rule: v.rule.into(),
 					detail: v.detail.clone(),
-					signature: format!("{}:{}", v.prop, v.rule),
+					signature: sig_of(v),
 					case: case0.clone(),
 					index: i,
 					log: out.log.iter().rev().take(40).rev().cloned().collect(),
